@@ -5,6 +5,14 @@
 //! accept everything; deviations: accept k bytes for the k of `envs::sink_menu`, `Interrupted`,
 //! hard error, `Ok(0)`). Plus the regular sinks "k bytes per call" (k = 1..=40), alone and with
 //! an interrupt / hard error / `Ok(0)` injected at every call index they reach.
+//!
+//! Fault-then-continue: when a transient hard error / `Ok(0)` refuses a block flush *atomically*
+//! (nothing of that flush had been accepted yet) the sink is healthy again afterwards and the
+//! history goes on; every later call that returns Ok is judged by C15's invariant on the sink
+//! contents (valid file, contents a prefix of the values handed over, all the values whose call
+//! returned Ok after a successful finish_block / into_inner / drop). If part of the flush had
+//! been accepted before the fault the stream state after the error is unspecified: the history
+//! stops there, no verdict on what follows.
 
 use crate::cfw::{self, CallRecord, Datum, Op};
 use crate::envs::{sink_menu, ScheduledSink, SinkAnswer};
@@ -15,6 +23,7 @@ use rayon::prelude::*;
 use serde_json::json;
 use std::cell::RefCell;
 use std::rc::Rc;
+use vmodel::value::RValue;
 
 /// A writer that calls the sink more often than this in one execution is retrying forever: a
 /// well-behaved execution needs at most one call per byte of the file plus one per interrupt.
@@ -49,6 +58,10 @@ fn histories(ds: &[Datum]) -> Vec<Hist> {
 		Hist { id: "HD", datum: 0, block_size: d.small_len as u32 + 1, ops: vec![Small, SmallRev, BigMix, Push1, Finish, Small, Small, SmallRev, IntoInner] },
 		// schema null: zero-byte datums, the data slice of the vectored write is empty under the null codec
 		Hist { id: "HN", datum: 1, block_size: 1, ops: vec![Small, Small, Finish, Push2, BadType, Finish, Small, IntoInner] },
+		// retries: a finish_block directly after a finish_block, an into_inner directly after a finish_block
+		Hist { id: "HR", datum: 0, block_size: 64 * 1024, ops: vec![Small, SmallRev, Finish, Finish, Push1, Finish, Small, Finish, IntoInner] },
+		// blocks cut by the size threshold inside serialize, each followed by a finish_block (a no-op unless the cut's flush was refused)
+		Hist { id: "HS", datum: 0, block_size: d.small_len as u32 + 1, ops: vec![Small, Small, Finish, Small, Small, Finish, Small, Drop] },
 	]
 }
 
@@ -80,13 +93,22 @@ struct Fault {
 	kind: SinkAnswer,
 	/// bytes the sink had accepted when the fault was reported
 	len_at_fault: usize,
+	/// the fault refused a block flush of which nothing had been accepted yet
+	atomic: bool,
 }
 
 #[derive(Default)]
 struct Ctl {
 	disposing: bool,
 	accepted: usize,
-	fault: Option<Fault>,
+	/// every hard error / Ok(0) reported, in order
+	faults: Vec<Fault>,
+	/// the history was stopped because of a fault that is not followed up (permanent fault mode,
+	/// part of the flush already accepted, fault during build / into_inner / drop, fault not
+	/// surfaced as Err)
+	stopped_at_fault: bool,
+	/// bytes of the block flush in progress: (total, still to be accepted); (0, 0) = no flush in progress
+	flush: (usize, usize),
 	horizon: bool,
 	/// non-default answers given: (sink call index, slice lengths of the call, answer)
 	schedule: Vec<(usize, Vec<usize>, SinkAnswer)>,
@@ -100,6 +122,10 @@ struct Ctl {
 
 struct Exec {
 	records: Vec<CallRecord>,
+	/// sink length after each record
+	sink_lens: Vec<usize>,
+	/// faults[fault_ranges[i].0 .. fault_ranges[i].1] were reported during record i
+	fault_ranges: Vec<(usize, usize)>,
 	sink: Vec<u8>,
 	sink_calls: usize,
 	vectored_calls: usize,
@@ -108,7 +134,8 @@ struct Exec {
 }
 
 /// Run the unit's history over a sink whose answers come from `decide(call, slice_lengths)`.
-/// The history stops after the call during which the first hard fault was reported.
+/// The history stops after the call during which a hard fault was reported, unless that fault
+/// is followed up (see the module documentation).
 fn execute(d: &Datum, u: &Unit, horizon: usize, decide: &mut dyn FnMut(usize, &[usize]) -> SinkAnswer) -> Exec {
 	let ctl: Rc<RefCell<Ctl>> = Rc::new(RefCell::new(Ctl::default()));
 	let sticky = u.sticky;
@@ -123,18 +150,36 @@ fn execute(d: &Datum, u: &Unit, horizon: usize, decide: &mut dyn FnMut(usize, &[
 			c.horizon = true;
 			return SinkAnswer::HardError;
 		}
-		let a = match &c.fault {
+		let a = match c.faults.first() {
 			Some(f) if sticky => f.kind,
 			_ => decide(call, lens),
 		};
+		// block flushes are the vectored calls; a flush starts when none is in progress
+		let vectored = lens.len() != 1 || c.flush.1 != 0;
+		if vectored && c.flush.1 != total {
+			// no flush in progress, or the writer offers something else than the rest of the flush
+			// in progress (it abandoned that one without a fault: judged by the oracle, not here)
+			c.flush = (total, total);
+		}
 		if a != SinkAnswer::All && c.schedule.len() < 64 {
 			c.schedule.push((call, lens.to_vec(), a));
 		}
 		match a {
-			SinkAnswer::All => c.accepted += total,
+			SinkAnswer::All => {
+				c.accepted += total;
+				if vectored {
+					c.flush = (0, 0);
+				}
+			}
 			SinkAnswer::Accept(k) => {
 				let k = k.clamp(1, total);
 				c.accepted += k;
+				if vectored {
+					c.flush.1 -= k;
+					if c.flush.1 == 0 {
+						c.flush = (0, 0);
+					}
+				}
 				if k < total {
 					if lens.len() == 3 {
 						let i = if k < lens[0] {
@@ -155,10 +200,13 @@ fn execute(d: &Datum, u: &Unit, horizon: usize, decide: &mut dyn FnMut(usize, &[
 			}
 			SinkAnswer::Interrupted => c.interrupts += 1,
 			SinkAnswer::HardError | SinkAnswer::Zero => {
-				if c.fault.is_none() {
-					let len_at_fault = c.accepted;
-					c.fault = Some(Fault { sink_call: call, kind: a, len_at_fault });
+				let len_at_fault = c.accepted;
+				let atomic = vectored && c.flush.0 == c.flush.1;
+				if c.faults.len() < 64 {
+					c.faults.push(Fault { sink_call: call, kind: a, len_at_fault, atomic });
 				}
+				// the writer abandons the flush (it may start it again from the beginning)
+				c.flush = (0, 0);
 			}
 		}
 		if lens.len() == 2 {
@@ -170,8 +218,12 @@ fn execute(d: &Datum, u: &Unit, horizon: usize, decide: &mut dyn FnMut(usize, &[
 		a
 	});
 	let mut records: Vec<CallRecord> = Vec::new();
+	let mut sink_lens: Vec<usize> = Vec::new();
+	let mut fault_ranges: Vec<(usize, usize)> = Vec::new();
+	let mut faults_seen = 0usize;
 	let c3 = ctl.clone();
 	let c4 = ctl.clone();
+	let state2 = state.clone();
 	cfw::run_history(
 		d,
 		u.codec,
@@ -185,14 +237,30 @@ fn execute(d: &Datum, u: &Unit, horizon: usize, decide: &mut dyn FnMut(usize, &[
 				return false;
 			}
 			records.push(rec.clone());
-			let c = c3.borrow();
-			c.fault.is_none() && !c.horizon
+			sink_lens.push(state2.borrow().bytes.len());
+			let mut c = c3.borrow_mut();
+			let new_faults = (faults_seen, c.faults.len());
+			fault_ranges.push(new_faults);
+			faults_seen = c.faults.len();
+			if c.horizon {
+				return false;
+			}
+			if new_faults.0 == new_faults.1 {
+				return true;
+			}
+			// fault-then-continue: a transient fault that atomically refused a block flush, surfaced
+			// as Err by a call that leaves the writer alive
+			let follow_up = !sticky && c.faults[new_faults.0..new_faults.1].iter().all(|f| f.atomic) && rec.result.is_err() && !rec.op.map_or(true, |o| o.terminal());
+			if !follow_up {
+				c.stopped_at_fault = true;
+			}
+			follow_up
 		},
 		&mut || c4.borrow_mut().disposing = true,
 	);
 	let st = state.borrow();
 	let ctl = std::mem::take(&mut *ctl.borrow_mut());
-	Exec { records, sink: st.bytes.clone(), sink_calls: st.calls, vectored_calls: st.vectored_calls, ctl, horizon }
+	Exec { records, sink_lens, fault_ranges, sink: st.bytes.clone(), sink_calls: st.calls, vectored_calls: st.vectored_calls, ctl, horizon }
 }
 
 /// The same history through the real crate into a plain `Vec<u8>`.
@@ -235,69 +303,49 @@ fn describe_calls(ex: &Exec) -> String {
 }
 
 /// The oracle. Counters go to `cover`.
-fn judge(u: &Unit, ex: &Exec, rf: &Reference, cover: &mut Cover) -> Result<(), (String, String)> {
+fn judge(d: &Datum, u: &Unit, ex: &Exec, rf: &Reference, cover: &mut Cover) -> Result<(), (String, String)> {
 	let ctx = format!("{}; schedule: {}; calls: {}", u.label(), describe_schedule(ex), describe_calls(ex));
 	if ex.ctl.horizon {
 		return Err(("sink-call-horizon".into(), format!("{ctx}: the writer made more than {} sink calls in one execution for a file of {} bytes (it retries forever)", ex.horizon, rf.bytes.len())));
 	}
-	match &ex.ctl.fault {
-		None => {
-			for (i, r) in ex.records.iter().enumerate() {
-				if rf.kinds.get(i) != Some(&r.result.kind()) {
-					return Err((
-						"benign-schedule-call-failed".into(),
-						format!(
-							"{ctx}: no hard error was injected, but op {} returned {:?} where the Vec<u8> run returned {:?}",
-							r.op_name(),
-							r.result,
-							rf.kinds.get(i)
-						),
-					));
-				}
-			}
-			if ex.records.len() != rf.kinds.len() {
-				return Err(("benign-schedule-call-failed".into(), format!("{ctx}: the history stopped after {} of {} calls", ex.records.len(), rf.kinds.len())));
-			}
-			if ex.sink != rf.bytes {
-				let common = ex.sink.iter().zip(&rf.bytes).take_while(|(a, b)| a == b).count();
-				return Err((
-					"bytes-differ".into(),
-					format!(
-						"{ctx}: the sink ends up with {} bytes, the Vec<u8> run with {}; first difference at offset {common}; sink = [{}], Vec<u8> = [{}]",
-						ex.sink.len(),
-						rf.bytes.len(),
-						truncate(&hex(&ex.sink), 900),
-						truncate(&hex(&rf.bytes), 900)
-					),
-				));
-			}
-			cover.count("benign_executions_identical", 1);
-			Ok(())
+	// the values handed over so far: (value, its call returned Ok). A value whose call returned
+	// Err because of a sink fault may or may not reach the file (no verdict); a value that does not
+	// match the schema never may.
+	let mut handed: Vec<(RValue, bool)> = Vec::new();
+	let mut first_fault_seen = false;
+	let mut refused_flushes = 0u64;
+	let mut values_in_file_at_last_refusal = 0usize;
+	let mut delivered_after_refusal = false;
+	for (i, rec) in ex.records.iter().enumerate() {
+		let (f0, f1) = ex.fault_ranges[i];
+		if !rec.op.map_or(false, |o| o.failing()) {
+			handed.extend(rec.values.iter().cloned().map(|v| (v, rec.result.is_ok())));
 		}
-		Some(f) => {
-			let rec = ex.records.last().expect("at least the build call");
-			// the calls before the one that met the fault ran under a benign schedule
-			for (i, r) in ex.records[..ex.records.len() - 1].iter().enumerate() {
-				if rf.kinds.get(i) != Some(&r.result.kind()) {
+		if f0 == f1 && !first_fault_seen {
+			// benign so far
+			if rf.kinds.get(i) != Some(&rec.result.kind()) {
+				return Err((
+					"benign-schedule-call-failed".into(),
+					format!("{ctx}: no hard error had been injected, but op {} returned {:?} where the Vec<u8> run returned {:?}", rec.op_name(), rec.result, rf.kinds.get(i)),
+				));
+			}
+			continue;
+		}
+		let opn = rec.op_name();
+		if f0 != f1 {
+			// this call met a fault
+			let f = &ex.ctl.faults[f0];
+			cover.count(&format!("faults_during_{}", opn.split('(').next().unwrap()), 1);
+			cover.count(if f.kind == SinkAnswer::Zero { "faults_ok0" } else { "faults_hard_error" }, 1);
+			if !first_fault_seen {
+				first_fault_seen = true;
+				// nothing lost, duplicated or reordered up to the first failure
+				if f.len_at_fault > rf.bytes.len() || ex.sink.len() < f.len_at_fault || ex.sink[..f.len_at_fault] != rf.bytes[..f.len_at_fault] {
 					return Err((
-						"benign-schedule-call-failed".into(),
-						format!("{ctx}: before any hard error was injected, op {} returned {:?} where the Vec<u8> run returned {:?}", r.op_name(), r.result, rf.kinds.get(i)),
+						"not-a-prefix-at-fault".into(),
+						format!("{ctx}: when the sink reported {:?} at sink call #{} it held {} bytes which are not a prefix of the Vec<u8> run's {} bytes: [{}]", f.kind, f.sink_call, f.len_at_fault, rf.bytes.len(), truncate(&hex(&ex.sink[..f.len_at_fault.min(ex.sink.len())]), 900)),
 					));
 				}
-			}
-			let opn = rec.op_name();
-			cover.count(&format!("faults_during_{}", opn.split('(').next().unwrap()), 1);
-			if f.kind == SinkAnswer::Zero {
-				cover.count("faults_ok0", 1);
-			} else {
-				cover.count("faults_hard_error", 1);
-			}
-			// nothing lost, duplicated or reordered up to the failure
-			if f.len_at_fault > rf.bytes.len() || ex.sink.len() < f.len_at_fault || ex.sink[..f.len_at_fault] != rf.bytes[..f.len_at_fault] {
-				return Err((
-					"not-a-prefix-at-fault".into(),
-					format!("{ctx}: when the sink reported {:?} at sink call #{} it held {} bytes which are not a prefix of the Vec<u8> run's {} bytes: [{}]", f.kind, f.sink_call, f.len_at_fault, rf.bytes.len(), truncate(&hex(&ex.sink[..f.len_at_fault.min(ex.sink.len())]), 900)),
-				));
 			}
 			if rec.op == Some(Op::Drop) {
 				// a destructor cannot return the error; the property speaks of calls that can
@@ -306,14 +354,163 @@ fn judge(u: &Unit, ex: &Exec, rf: &Reference, cover: &mut Cover) -> Result<(), (
 				return Ok(());
 			}
 			match &rec.result {
-				Out::Err(_) => {
-					cover.count("faults_surfaced_as_err", 1);
-					Ok(())
+				Out::Err(_) => cover.count("faults_surfaced_as_err", 1),
+				Out::Ok(()) => return Err(("fault-not-surfaced".into(), format!("{ctx}: the sink reported {:?} at sink call #{} during op {opn}, which returned Ok", f.kind, f.sink_call))),
+				Out::Panic(m) => return Err(("failing-call-panicked".into(), format!("{ctx}: the sink reported {:?} at sink call #{} during op {opn}, which panicked instead of returning Err: {m}", f.kind, f.sink_call))),
+			}
+			if i + 1 == ex.records.len() && ex.ctl.stopped_at_fault {
+				cover.count(if ex.ctl.faults[f0..f1].iter().all(|f| f.atomic) { "stopped_at_atomic_fault_not_followed_up" } else { "stopped_at_fault_inside_a_flush_no_verdict_after" }, 1);
+				return Ok(());
+			}
+			// an atomically refused block flush, the history goes on
+			refused_flushes += 1;
+			cover.count("refused_block_flushes_followed_up", 1);
+			values_in_file_at_last_refusal = match cfw::inspect(d, u.codec, &ex.sink[..ex.sink_lens[i]]) {
+				Ok(ins) => ins.values.len(),
+				Err(e) => return Err(("invalid-file-after-refused-flush".into(), format!("{ctx}: after {opn} returned Err for a block flush of which the sink accepted nothing, the sink does not hold a valid container file: {e}"))),
+			};
+			continue;
+		}
+		// a call after a refused flush, on a sink that is healthy again
+		match &rec.result {
+			Out::Panic(m) => return Err(("call-panicked-after-refused-flush".into(), format!("{ctx}: op {opn} (call {i}), after an atomically refused block flush, panicked: {m}"))),
+			Out::Err(_) => {
+				// e.g. a poisoned writer: not judged, nothing is claimed flushed
+				cover.count("later_calls_err_not_judged", 1);
+				continue;
+			}
+			Out::Ok(()) => {}
+		}
+		cover.count("later_calls_ok_judged", 1);
+		let sink = &ex.sink[..ex.sink_lens[i]];
+		let ins = match cfw::inspect(d, u.codec, sink) {
+			Ok(ins) => ins,
+			Err(e) => {
+				return Err((
+					"invalid-file-after-refused-flush".into(),
+					format!("{ctx}: op {opn} (call {i}) returned Ok after an atomically refused block flush, and the sink does not hold a valid container file: {e}; sink = [{}]", truncate(&hex(sink), 1200)),
+				))
+			}
+		};
+		if !d.is_record {
+			// the values of the null datum are indistinguishable: judge by counts
+			let mandatory = handed.iter().filter(|(_, ok)| *ok).count();
+			if ins.values.len() > handed.len() {
+				return Err(("not-a-prefix-after-refused-flush".into(), format!("{ctx}: op {opn} (call {i}) returned Ok after an atomically refused block flush; the file holds {} values (blocks {:?}) but only {} were handed over", ins.values.len(), ins.block_counts, handed.len())));
+			}
+			if matches!(rec.op, Some(Op::Finish | Op::IntoInner | Op::Drop)) && ins.values.len() < mandatory {
+				return Err((
+					"incomplete-after-refused-flush".into(),
+					format!("{ctx}: op {opn} (call {i}) returned Ok after an atomically refused block flush, but the file (blocks {:?}) holds {} values while the calls of {mandatory} values returned Ok", ins.block_counts, ins.values.len()),
+				));
+			}
+			if ins.values.len() > values_in_file_at_last_refusal {
+				delivered_after_refusal = true;
+			}
+			continue;
+		}
+		// greedy match (all values are distinct): mandatory = its call returned Ok
+		let mut hi = 0usize;
+		let mut missing: Vec<&RValue> = Vec::new();
+		let mut stray: Option<&RValue> = None;
+		for v in &ins.values {
+			loop {
+				match handed.get(hi) {
+					None => {
+						stray = Some(v);
+						break;
+					}
+					Some((h, mandatory)) => {
+						hi += 1;
+						if h == v {
+							break;
+						}
+						if *mandatory {
+							missing.push(h);
+						}
+					}
 				}
-				Out::Ok(()) => Err(("fault-not-surfaced".into(), format!("{ctx}: the sink reported {:?} at sink call #{} during op {opn}, which returned Ok", f.kind, f.sink_call))),
-				Out::Panic(m) => Err(("failing-call-panicked".into(), format!("{ctx}: the sink reported {:?} at sink call #{} during op {opn}, which panicked instead of returning Err: {m}", f.kind, f.sink_call))),
+			}
+			if stray.is_some() {
+				break;
 			}
 		}
+		if stray.is_some() || !missing.is_empty() {
+			return Err((
+				"not-a-prefix-after-refused-flush".into(),
+				format!(
+					"{ctx}: op {opn} (call {i}) returned Ok after an atomically refused block flush; the file holds {} values (blocks {:?}) that are not a prefix of the values handed over [{}] (skipped although their call returned Ok: {}; not handed over / out of order: {})",
+					ins.values.len(),
+					ins.block_counts,
+					handed.iter().map(|(v, ok)| format!("{}{}", value_id(v), if *ok { "" } else { "(call Err)" })).collect::<Vec<_>>().join(", "),
+					missing.iter().map(|v| value_id(v)).collect::<Vec<_>>().join(", "),
+					stray.map_or("-".to_owned(), value_id),
+				),
+			));
+		}
+		if matches!(rec.op, Some(Op::Finish | Op::IntoInner | Op::Drop)) {
+			let lost: Vec<String> = handed[hi..].iter().filter(|(_, ok)| *ok).map(|(v, _)| value_id(v)).collect();
+			if !lost.is_empty() {
+				return Err((
+					"incomplete-after-refused-flush".into(),
+					format!(
+						"{ctx}: op {opn} (call {i}) returned Ok after an atomically refused block flush, but the file (blocks {:?}, {} values) lacks {} whose calls returned Ok",
+						ins.block_counts,
+						ins.values.len(),
+						lost.join(", ")
+					),
+				));
+			}
+		}
+		if ins.values.len() > values_in_file_at_last_refusal {
+			delivered_after_refusal = true;
+		}
+	}
+	if ex.ctl.faults.is_empty() {
+		if ex.records.len() != rf.kinds.len() {
+			return Err(("benign-schedule-call-failed".into(), format!("{ctx}: the history stopped after {} of {} calls", ex.records.len(), rf.kinds.len())));
+		}
+		if ex.sink != rf.bytes {
+			let common = ex.sink.iter().zip(&rf.bytes).take_while(|(a, b)| a == b).count();
+			return Err((
+				"bytes-differ".into(),
+				format!(
+					"{ctx}: the sink ends up with {} bytes, the Vec<u8> run with {}; first difference at offset {common}; sink = [{}], Vec<u8> = [{}]",
+					ex.sink.len(),
+					rf.bytes.len(),
+					truncate(&hex(&ex.sink), 900),
+					truncate(&hex(&rf.bytes), 900)
+				),
+			));
+		}
+		cover.count("benign_executions_identical", 1);
+	} else if refused_flushes > 0 {
+		cover.count("executions_continued_after_refused_flush", 1);
+		if delivered_after_refusal {
+			cover.count("refused_flush_then_successful_retry_delivered_block", 1);
+		}
+		if ex.records.len() == rf.kinds.len() && ex.sink[..*ex.sink_lens.last().unwrap()] == rf.bytes[..] {
+			cover.count("continued_executions_ending_with_the_reference_stream", 1);
+		}
+	}
+	Ok(())
+}
+
+fn value_id(v: &RValue) -> String {
+	match v {
+		RValue::Record(f) => match (&f[0], &f[1]) {
+			(RValue::Long(a), RValue::Array(xs)) => {
+				let kind = match xs.first() {
+					Some(RValue::Str(s)) if s == "x" => "small",
+					Some(RValue::Str(s)) if s == "p" => "pushed",
+					_ => "big",
+				};
+				format!("{kind}#{a}")
+			}
+			_ => format!("{v:?}"),
+		},
+		RValue::Null => "null".to_owned(),
+		_ => format!("{v:?}"),
 	}
 }
 
@@ -329,7 +526,7 @@ fn account(ex: &Exec, cover: &mut Cover) {
 	cover.count("interrupts_injected", ex.ctl.interrupts);
 	cover.count("vectored_retries_with_two_slices_left", ex.ctl.retries_with_fewer_slices);
 	cover.count("vectored_calls_with_empty_data_slice", ex.ctl.empty_data_slice_calls);
-	cover.outcomes.insert(hash64(&(ex.ctl.fault.as_ref().map(|f| (format!("{:?}", f.kind), f.len_at_fault)), ex.records.iter().map(|r| r.result.kind()).collect::<Vec<_>>(), ex.sink.len())));
+	cover.outcomes.insert(hash64(&(ex.ctl.faults.iter().map(|f| (format!("{:?}", f.kind), f.len_at_fault)).collect::<Vec<_>>(), ex.records.iter().map(|r| r.result.kind()).collect::<Vec<_>>(), ex.sink.len())));
 }
 
 /// number of sink calls the regular execution with k bytes per call makes (learned from a run)
@@ -411,7 +608,7 @@ fn run_unit(d: &Datum, u: &Unit, budget: usize, max_leaves: u64, inject_ks: &[us
 		if ch.devs_used > 0 {
 			cover.nontrivial.insert(hash64(&(u.hist.id, u.codec, u.sticky, ch.choices())));
 		}
-		if let Err((class, what)) = judge(u, &ex, &rf, &mut cover) {
+		if let Err((class, what)) = judge(d, u, &ex, &rf, &mut cover) {
 			if out.iter().filter(|v| v.class == class).count() < 100 {
 				// determinism guard
 				let mut ch2 = Chooser::replay(ch.choices());
@@ -421,7 +618,7 @@ fn run_unit(d: &Datum, u: &Unit, budget: usize, max_leaves: u64, inject_ks: &[us
 					let i = cell2.borrow_mut().dev(menu.len());
 					menu[i]
 				});
-				if judge(u, &ex2, &rf, &mut Cover::default()) != Err((class.clone(), what.clone())) {
+				if judge(d, u, &ex2, &rf, &mut Cover::default()) != Err((class.clone(), what.clone())) {
 					eprintln!("MACHINERY: C16 execution {:?} of {} is not reproducible", ch.choices(), u.label());
 					std::process::exit(2);
 				}
@@ -430,7 +627,7 @@ fn run_unit(d: &Datum, u: &Unit, budget: usize, max_leaves: u64, inject_ks: &[us
 				out.push(Violation { class, what, replay: tok });
 			}
 		}
-		if cover.samples.is_empty() && ch.devs_used == 2 && ex.ctl.fault.is_none() && u.codec == "null" && u.hist.id == "HA" {
+		if cover.samples.is_empty() && ch.devs_used == 2 && ex.ctl.faults.is_empty() && u.codec == "null" && u.hist.id == "HA" {
 			cover.sample(json!({"unit": u.label(), "schedule": describe_schedule(&ex), "calls": describe_calls(&ex), "sink_calls": ex.sink_calls, "sink_bytes": ex.sink.len(), "identical_to_vec_run": ex.sink == rf.bytes}));
 		}
 		stop_worthy(&out) < 100
@@ -445,7 +642,7 @@ fn run_unit(d: &Datum, u: &Unit, budget: usize, max_leaves: u64, inject_ks: &[us
 		cover.transitions += 1;
 		cover.count("regular_sink_executions", 1);
 		cover.nontrivial.insert(hash64(&(u.hist.id, u.codec, u.sticky, "regular", k, format!("{inject:?}"))));
-		if let Err((class, what)) = judge(u, &ex, &rf, cover) {
+		if let Err((class, what)) = judge(d, u, &ex, &rf, cover) {
 			if out.iter().filter(|v| v.class == class).count() < 100 {
 				let mut tok = unit_token(u);
 				tok["regular"] = match &inject {
@@ -508,7 +705,7 @@ pub fn run(rep: &mut Report) {
 	let max_leaves: u64 = if thorough { 3_000_000 } else { 300_000 };
 	let inject_ks: Vec<usize> = if thorough { vec![1, 2, 3, 5, 16, 40] } else { vec![1, 3, 16] };
 	rep.rule = format!(
-		"ENV: units = writer histories {:?} (datum 'record' = schema {}, datum 'null' = schema \"null\" with zero-byte values; sync marker pinned) x codecs {:?} x (transient | permanent) sink faults. Per unit: (1) every execution with <= {budget} deviations (thorough: <= {budget}+1 for the codecs null and deflate), a deviation point being every write/write_vectored call the execution actually makes on the harness-owned sink (default: accept everything; deviations from envs::sink_menu: accept k in {{1, 2, |first slice|, |first slice|+1, |first two|, |first two|+1, total-1}}, Interrupted, hard error, Ok(0)); (2) the regular sinks accepting k bytes per call for k = 1..=40, and for k in {:?} additionally with Interrupted / hard error / Ok(0) injected at every call index the regular execution reaches. Oracle: no hard error / Ok(0) injected => every writer call returns what it returns on Vec<u8> and the sink ends up with exactly the Vec<u8> run's bytes; hard error / Ok(0) during a call => that call returns Err (not Ok, not a panic; build with debug assertions) and the bytes the sink held when it reported the fault are a prefix of the Vec<u8> run's; the history stops after the failing call (what a writer does after an error is outside the property); a fault that hits the explicit `drop` is not judged (a destructor cannot return an error). Non-trivial: executions with at least one deviation, distinct on (unit, choice vector); every regular-sink execution.",
+		"ENV: units = writer histories {:?} (datum 'record' = schema {}, datum 'null' = schema \"null\" with zero-byte values; sync marker pinned) x codecs {:?} x (transient | permanent) sink faults. Per unit: (1) every execution with <= {budget} deviations (thorough: <= {budget}+1 for the codecs null and deflate), a deviation point being every write/write_vectored call the execution actually makes on the harness-owned sink (default: accept everything; deviations from envs::sink_menu: accept k in {{1, 2, |first slice|, |first slice|+1, |first two|, |first two|+1, total-1}}, Interrupted, hard error, Ok(0)); (2) the regular sinks accepting k bytes per call for k = 1..=40, and for k in {:?} additionally with Interrupted / hard error / Ok(0) injected at every call index the regular execution reaches. Oracle: no hard error / Ok(0) injected => every writer call returns what it returns on Vec<u8> and the sink ends up with exactly the Vec<u8> run's bytes; hard error / Ok(0) during a call => that call returns Err (not Ok, not a panic; build with debug assertions) and the bytes the sink held when it reported the fault are a prefix of the Vec<u8> run's; a fault that hits the explicit `drop` is not judged (a destructor cannot return an error). Fault-then-continue (transient fault mode): when the fault refused a block flush atomically (the sink had accepted nothing of that flush) and the call returned Err with the writer still alive, the sink is healthy again and the history goes on (later calls are deviation points again); every later call that returns Ok is judged by C15's invariant on the sink contents at that point (vmodel cf_parse + decode per datum: valid file; its values are a prefix, in order, of the values handed over, where a value whose call returned Err because of the sink fault may or may not be present and a value that does not match the schema never; after an Ok finish_block / into_inner / drop every value whose call returned Ok is present); later calls that return Err are not judged, a panic is a violation. In every other case (part of the flush already accepted, permanent fault mode, fault during build / into_inner) the history stops after the failing call: the stream state after such an error is unspecified. Non-trivial: executions with at least one deviation, distinct on (unit, choice vector); every regular-sink execution.",
 		histories(&ds).iter().map(|h| format!("{} = {:?} @ approx_block_size {}, datum {}", h.id, cfw::hist_names(&h.ops), h.block_size, ds[h.datum].id)).collect::<Vec<_>>(),
 		ds[0].schema_text,
 		if thorough { &cfw::CODECS_ALL[..] } else { &cfw::CODECS_QUICK[..] },
@@ -543,6 +740,10 @@ pub fn run(rep: &mut Report) {
 		"faults_ok0",
 		"faults_surfaced_as_err",
 		"executions_with_2_deviations",
+		"refused_block_flushes_followed_up",
+		"later_calls_ok_judged",
+		"refused_flush_then_successful_retry_delivered_block",
+		"stopped_at_fault_inside_a_flush_no_verdict_after",
 	];
 	rep.extra.insert("deviation_budget_null_deflate".into(), json!(budget + thorough as usize));
 	let unexplained = rep.violations.iter().any(|v| v.class != "failing-call-panicked");
@@ -600,12 +801,16 @@ pub fn replay(v: &serde_json::Value) -> i32 {
 	};
 	println!("  schedule: {}", describe_schedule(&ex));
 	for (i, rec) in ex.records.iter().enumerate() {
-		println!("  call {i} {:<20} -> {:?}   (Vec<u8> run: {})", rec.op_name(), rec.result, rf.kinds.get(i).copied().unwrap_or("-"));
+		let seen = match cfw::inspect(d, u.codec, &ex.sink[..ex.sink_lens[i]]) {
+			Ok(ins) => format!("valid file, blocks {:?}, values [{}]", ins.block_counts, ins.values.iter().map(value_id).collect::<Vec<_>>().join(", ")),
+			Err(e) => format!("not a complete valid file: {e}"),
+		};
+		println!("  call {i} {:<20} -> {:?}   (Vec<u8> run: {}); sink {} bytes: {seen}", rec.op_name(), rec.result, rf.kinds.get(i).copied().unwrap_or("-"), ex.sink_lens[i]);
 	}
-	println!("  sink calls {}, fault {:?}", ex.sink_calls, ex.ctl.fault);
+	println!("  sink calls {}, faults {:?}", ex.sink_calls, ex.ctl.faults);
 	println!("  sink    ({} bytes) = [{}]", ex.sink.len(), hex(&ex.sink));
 	println!("  Vec<u8> ({} bytes) = [{}]", rf.bytes.len(), hex(&rf.bytes));
-	match judge(&u, &ex, &rf, &mut Cover::default()) {
+	match judge(d, &u, &ex, &rf, &mut Cover::default()) {
 		Ok(()) => {
 			println!("  no violation: the property holds on this execution");
 			0
